@@ -101,6 +101,17 @@ pub fn alu(op: Alu, x: u32, y: u32) -> u32 {
     }
 }
 
+/// `alu` restricted to the operators whose circuits are cheap for a SAT solver
+/// (no multiplier/divider); other operators are mapped to 0 and must be
+/// excluded by the caller.  Lets a harness keep the operator symbolic without
+/// dragging multiplier and divider circuits into every formula.
+pub fn alu_cheap(op: Alu, x: u32, y: u32) -> u32 {
+    match op {
+        Alu::Add | Alu::Sub | Alu::And | Alu::Or | Alu::Xor | Alu::Sll | Alu::Srl | Alu::Sra | Alu::Slt | Alu::Sltu => alu(op, x, y),
+        _ => 0,
+    }
+}
+
 #[derive(Clone, Copy, PartialEq, Eq, Debug)]
 pub enum Cond {
     Eq,
@@ -122,9 +133,71 @@ pub fn branch_taken(c: Cond, x: u32, y: u32) -> bool {
     }
 }
 
+/// Read access to a register file (x0 reads as zero).
+pub trait RegRead {
+    fn get(&self, r: u8) -> u32;
+}
+
+/// A register file given by the values of a few named registers plus one
+/// value shared by all others (registers an obligation never names cannot
+/// influence it).  Lookup is first-match, so repeated keys are consistent.
+#[derive(Clone, Copy)]
+pub struct RF {
+    pub keys: [u8; 6],
+    pub vals: [u32; 6],
+    pub n: usize,
+    pub other: u32,
+}
+
+impl RF {
+    pub fn new(other: u32) -> Self {
+        RF { keys: [0; 6], vals: [0; 6], n: 0, other }
+    }
+    /// Bind `r` (most recent binding wins).
+    pub fn set(&mut self, r: u8, v: u32) {
+        if r == 0 {
+            return;
+        }
+        // shift right, insert at the front
+        let mut i = 5;
+        while i > 0 {
+            self.keys[i] = self.keys[i - 1];
+            self.vals[i] = self.vals[i - 1];
+            i -= 1;
+        }
+        self.keys[0] = r;
+        self.vals[0] = v;
+        if self.n < 6 {
+            self.n += 1;
+        }
+    }
+}
+
+impl RegRead for RF {
+    fn get(&self, r: u8) -> u32 {
+        if r == 0 {
+            return 0;
+        }
+        let mut i = 0;
+        while i < 6 {
+            if i < self.n && self.keys[i] == r {
+                return self.vals[i];
+            }
+            i += 1;
+        }
+        self.other
+    }
+}
+
 /// Register file with x0 hard-wired to zero.
 #[derive(Clone, Copy)]
 pub struct Regs(pub [u32; 32]);
+
+impl RegRead for Regs {
+    fn get(&self, r: u8) -> u32 {
+        Regs::get(self, r)
+    }
+}
 
 impl Regs {
     pub fn get(&self, r: u8) -> u32 {
@@ -228,7 +301,7 @@ pub struct Effect {
     pub csr_operand: Option<u32>,
 }
 
-pub fn effect(i: &RInst, r: &Regs, pc: u32) -> Effect {
+pub fn effect<R: RegRead>(i: &RInst, r: &R, pc: u32) -> Effect {
     let mut e = Effect { rd_value: None, taken: None, target: None, addr: None, store_value: None, csr_operand: None };
     match *i {
         RInst::Alu { op, rs1, rs2, .. } => e.rd_value = Some(alu(op, r.get(rs1), r.get(rs2))),
